@@ -46,6 +46,9 @@ impl Drop for Scratch {
 pub enum Entry {
     Dir,
     File(Arc<Vec<u8>>),
+    /// a file that shares its inode with other paths of the tree: the contents and the first path (in path order) of its
+    /// link group. Two paths naming one inode are one piece of state: a write through either is seen through both.
+    Linked(Arc<Vec<u8>>, String),
     Other,
 }
 
@@ -53,7 +56,8 @@ pub type Snapshot = BTreeMap<String, Entry>;
 
 /// recursive snapshot: relative path -> entry (file contents included; mtimes dropped)
 pub fn snapshot(root: &Path) -> Snapshot {
-    fn walk(root: &Path, dir: &Path, out: &mut Snapshot) {
+    use std::os::unix::fs::MetadataExt;
+    fn walk(root: &Path, dir: &Path, out: &mut Snapshot, inodes: &mut BTreeMap<String, (u64, u64)>) {
         let Ok(rd) = std::fs::read_dir(dir) else { return };
         for e in rd.flatten() {
             let p = e.path();
@@ -61,8 +65,13 @@ pub fn snapshot(root: &Path) -> Snapshot {
             let Ok(ft) = e.file_type() else { continue };
             if ft.is_dir() {
                 out.insert(rel, Entry::Dir);
-                walk(root, &p, out);
+                walk(root, &p, out, inodes);
             } else if ft.is_file() {
+                if let Ok(md) = e.metadata() {
+                    if md.nlink() > 1 {
+                        inodes.insert(rel.clone(), (md.dev(), md.ino()));
+                    }
+                }
                 out.insert(rel, Entry::File(intern(std::fs::read(&p).unwrap_or_default())));
             } else {
                 out.insert(rel, Entry::Other);
@@ -70,7 +79,21 @@ pub fn snapshot(root: &Path) -> Snapshot {
         }
     }
     let mut out = Snapshot::new();
-    walk(root, root, &mut out);
+    let mut inodes: BTreeMap<String, (u64, u64)> = BTreeMap::new();
+    walk(root, root, &mut out, &mut inodes);
+    // link groups inside the tree, named by their first path in path order
+    let mut first: BTreeMap<(u64, u64), String> = BTreeMap::new();
+    for (rel, id) in &inodes {
+        first.entry(*id).or_insert_with(|| rel.clone());
+    }
+    for (rel, id) in &inodes {
+        let members = inodes.values().filter(|x| *x == id).count();
+        if members > 1 {
+            if let Some(Entry::File(b)) = out.get(rel).cloned() {
+                out.insert(rel.clone(), Entry::Linked(b, first[id].clone()));
+            }
+        }
+    }
     out
 }
 
@@ -105,6 +128,17 @@ pub fn materialise(snap: &Snapshot, root: &Path) {
                     let _ = std::fs::create_dir_all(parent);
                 }
                 std::fs::write(&p, b.as_slice()).expect("write");
+            }
+            Entry::Linked(b, first) => {
+                if let Some(parent) = p.parent() {
+                    let _ = std::fs::create_dir_all(parent);
+                }
+                // (BTreeMap order: the group's first path has been written before its other members)
+                if first == rel {
+                    std::fs::write(&p, b.as_slice()).expect("write");
+                } else if std::fs::hard_link(root.join(first), &p).is_err() {
+                    std::fs::write(&p, b.as_slice()).expect("write");
+                }
             }
             Entry::Other => {}
         }
